@@ -46,7 +46,7 @@ def run_operator_case(case, prop, configs, weakly, want, nq=8, cinf_bounds=(5, 5
     if 'c-inference' in [c[0] for c in configs]:
         kw = dict(nat=rng.randint(2, cinf_bounds[0]), ncond=rng.randint(1, cinf_bounds[1]))
     if fam is None and kw:
-        fam = rng.choices(['rand', 'chain', 'indep'], [8, 1, 1])[0]
+        fam = rng.choices(['rand', 'chain', 'indep', 'conjcons', 'multiex'], [8, 1, 1, 2.5, 1])[0]
     sig, conds, fam = gen.gen_base(rng, want=want, family=fam, **(kw if fam == 'rand' else {}))
     qs = gen.gen_queries(rng, sig, conds, nq)
     if fam == 'd4':
